@@ -26,7 +26,7 @@ PROPS = {
 
     'C02': {
         'lean_modules': ['C02', 'ArithTieCuckoo', 'C02Concrete', 'MurmurTie'],
-        'required_theorems': ['tie_murmur_sum128', 'tie_murmur_getHash', 'tie_bmixBlock', 'tie_fmix64', 'tie_tailMix', 'C02_no_false_negative_concrete', 'C02_inserted_element_found', 'C02_positions_valid', 'C02_positions_valid_any_n', 'C02_fpl_valid_iff', 'C02_concrete_npow2_loses_element', 'tie_cuckooFirstIndex', 'tie_cuckooSecondIndex', 'tie_cuckooKickIndexMem', 'tie_cuckooKickIndexRedis', 'C02_no_false_negative', 'C02_insert_ok_stored', 'C02_insert_preserves_lookup', 'C02_alt_involutive_pow2',
+        'required_theorems': ['tie_murmur_sum128', 'tie_murmur_getHash', 'tie_bmixBlock', 'tie_finalize', 'tie_tailMix', 'C02_no_false_negative_concrete', 'C02_inserted_element_found', 'C02_positions_valid', 'C02_positions_valid_any_n', 'C02_fpl_valid_iff', 'C02_concrete_npow2_loses_element', 'tie_cuckooFirstIndex', 'tie_cuckooSecondIndex', 'tie_cuckooKickIndexMem', 'tie_cuckooKickIndexRedis', 'C02_no_false_negative', 'C02_insert_ok_stored', 'C02_insert_preserves_lookup', 'C02_alt_involutive_pow2',
                               'C02_alt_not_involutive_npow2', 'C02_no_kick_any_n_partial', 'C02_npow2_kick_loses_element'],
         'suites': ['cuckoo', 'conc'],
         'race_suites': ['conc'],
@@ -40,8 +40,8 @@ PROPS = {
                         'math/rand stream reproduced by rand.Seed for the correspondence check'],
     },
     'C03': {
-        'lean_modules': ['C03', 'ArithTieCMS'],
-        'required_theorems': ['tie_cmsPosition', 'C03_lower', 'C03_upper', 'C03_exact_single', 'C03_empty_zero', 'C03_concrete'],
+        'lean_modules': ['C03', 'ArithTieCMS', 'C03Machine', 'ArithTieCMSCells'],
+        'required_theorems': ['C03_machine_refines_history', 'C03_machine_lower', 'C03_machine_upper', 'C03_machine_exact_single', 'C03_machine_wraps', 'C03_machine_mod', 'tie_cmsCellUpdate', 'tie_cmsAllSumUpdate', 'tie_cmsPosition', 'C03_lower', 'C03_upper', 'C03_exact_single', 'C03_empty_zero', 'C03_concrete'],
         'suites': ['cms', 'conc', 'redisconc'],
         'race_suites': ['conc'],
         'level': 'proof',
@@ -95,8 +95,8 @@ PROPS = {
         'assumptions': ['all header fields < 2^64; float parameters travel as bit patterns', 'bits-and-blooms/bitset WriteTo/ReadFrom format as transcribed (tie-checked)'],
     },
     'C12': {
-        'lean_modules': ['C12'],
-        'required_theorems': ['C12_merge_union', 'C12_merge_comm', 'C12_merge_assoc', 'C12_merge_then_update', 'C12_counts_after_merge', 'C12_mismatch'],
+        'lean_modules': ['C12', 'C03Machine', 'ArithTieCMSCells'],
+        'required_theorems': ['C12_machine_merge_union', 'C12_machine_wraps', 'tie_cmsCellMerge', 'C03_machine_refines_merge', 'C12_merge_union', 'C12_merge_comm', 'C12_merge_assoc', 'C12_merge_then_update', 'C12_counts_after_merge', 'C12_mismatch'],
         'suites': ['cms', 'redisconc', 'conc'],
         'race_suites': ['conc'],
         'level': 'proof',
@@ -193,8 +193,8 @@ PROPS = {
     },
 
     'C07': {
-        'lean_modules': ['C07', 'C07Lock', 'C07Merge'],
-        'required_theorems': ['C07_self_merge_linearizable', 'C07_self_merge_any_schedule', 'C07_self_merge_all_applied', 'C07_cross_merge_h_side', 'C07_cross_merge_g_side', 'C07_two_phase_needs_commutation', 'C07_overlapping_self_merges_not_atomic', 'C07_serializable', 'C07_program_order_preserved', 'C07_no_lost_update', 'C07_order_independent_bloom',
+        'lean_modules': ['C07', 'C07Lock', 'C07Merge', 'C07Sections'],
+        'required_theorems': ['C07_sections_understood', 'C07_single_section', 'C07_single_section_covers', 'C07_merge_two_sections', 'C07_merge_guarded', 'C07_lock_order', 'C07_no_two_locks_of_one_type', 'C07_section_table_aligned', 'C07_self_merge_linearizable', 'C07_self_merge_any_schedule', 'C07_self_merge_all_applied', 'C07_cross_merge_h_side', 'C07_cross_merge_g_side', 'C07_two_phase_needs_commutation', 'C07_overlapping_self_merges_not_atomic', 'C07_serializable', 'C07_program_order_preserved', 'C07_no_lost_update', 'C07_order_independent_bloom',
                               'C07_order_independent_cms', 'C07_order_independent_hll', 'C07_lock_discipline', 'C07_lock_table_covers'],
         'suites': ['conc'],
         'race_suites': ['conc'],
